@@ -607,15 +607,22 @@ func (e *env) runCut(jr *jobres) []*bres {
 		if v, ok := lens[k]; ok {
 			return v, v > 0
 		}
-		L, err := e.streamLen(bc)
-		if err != nil {
-			e.logf("%v", err)
-			lens[k] = 0
-			return 0, false
+		// the database is quiescent, but a raft snapshot may still checkpoint the
+		// WAL once after the last write: measure until two consecutive
+		// measurements agree
+		var L int64
+		ok := false
+		for try := 0; try < 8 && !ok; try++ {
+			L1, err1 := e.streamLen(bc)
+			L2, err2 := e.streamLen(bc)
+			if err1 == nil && err2 == nil && L1 == L2 {
+				L, ok = L1, true
+				break
+			}
+			e.logf("stream length not stable: %d vs %d (%v %v)", L1, L2, err1, err2)
+			time.Sleep(400 * time.Millisecond)
 		}
-		// the database is quiescent: a second measurement must agree
-		if L2, err := e.streamLen(bc); err != nil || L2 != L {
-			e.logf("stream length not stable: %d vs %d (%v)", L, L2, err)
+		if !ok {
 			lens[k] = 0
 			return 0, false
 		}
